@@ -717,10 +717,21 @@ def read_ir_text(text, label, optimise):
         return "diag", "verify: " + str(e)[:140]
     except Exception:  # noqa
         return exc_signature("irtext+verify")
+    from ppci import ir
+    for f in m.functions:
+        for b in f.blocks:
+            for i in b.instructions:
+                if isinstance(i, ir.Binop) and i.operation in ("<<", ">>") and isinstance(i.b, ir.Const) \
+                        and isinstance(i.b.value, int) and not 0 <= i.b.value < 64:
+                    # undefined at run time; folding it only exercises CPython's big-int limits (the constant folder
+                    # builds `x << 2**40`: minutes, then MemoryError — C38's territory, see notes/C28.md)
+                    return "ok", "optimiser skipped: constant shift count out of range"
     for lv in (0, 1, 2, "s"):
         try:
             m2 = read_module(io.StringIO(text))
             api.optimize(m2, level=lv)
+        except (MemoryError, OverflowError):
+            return "ok", "optimiser: big-int limit of CPython (not a front-end outcome)"
         except diag as e:
             return "diag", f"optimize {lv}: " + str(e)[:130]
         except Exception:  # noqa
@@ -754,6 +765,8 @@ def check_irtext(ctx):
             continue
         st, msg = read_ir_text(text, label, optimise)
         ctx.count("irtext_" + st.split(":")[0])
+        if msg.startswith("optimiser"):
+            ctx.count("irtext_optimiser_bigint_skipped")
         if label.startswith("gen"):
             ctx.nontrivial(label + text[:200])
         if st not in ("ok", "diag"):
